@@ -125,6 +125,23 @@ def pvv(nsym, tails, via, split=None):
     return h
 
 
+def leading_zero_pins():
+    """PINs that begin with zeros (also longer than four digits): the leftmost four digits go into the TSP as they are"""
+    def h():
+        pb = P().pinblock
+        pin = choose('pin', ['0654', '065432', '000012345678', '0000', '00001', '0100', '007000000'])
+        pan = choose('pan', ['5412345678901234', '4111111111111', '6011000990139424123'])
+        idx = choose('idx', [0, 1, 9])
+        rp = {'kind': 'tsp', 'args': {'pin': pin, 'pan': pan, 'idx': idx}}
+        core.set_fallback(rp, 'C14/concretised')
+        with guard('_get_tsp', 'C14/tsp-exception', rp):
+            t = pb._get_tsp(pan, idx, pin)
+        want = pan[-12:-1] + str(idx) + pin[:4]
+        require(str(t) == want, 'TSP for PIN %s is %s, the specification gives %s' % (pin, t, want), key='C14/tsp', replay=rp)
+        return {'sample': rp['args'], 'replay': rp}
+    return h
+
+
 def two_cards():
     """one pin block object without a card number of its own, asked for the PVV of two different cards one after the other"""
     def h():
@@ -243,6 +260,7 @@ def obligations(tier):
         for s in range(16):
             obs.append(Ob('pvv/function/16-symbolic/pattern-%x' % s, pvv(16, None, 'function', split=s), 3000,
                           'all 16 ciphertext hex digits arbitrary; worker handles digit/letter pattern %s of the first four' % format(s, '04b'), _funcs))
+    obs.append(Ob('tsp/leading-zero-pins', leading_zero_pins(), 60, 'seven concrete PINs with leading zeros (4..12 digits) x three PANs x key index 0/1/9', _funcs))
     obs.append(Ob('pvv/mixin/two-cards-one-object', two_cards(), 300,
                   'format-4 block object (no card number of its own): to_pvv for two symbolic 16-digit card numbers in a row; ciphertexts of the pattern dddd ffffffffffff', _funcs))
     return obs
